@@ -44,6 +44,8 @@ TIE_VIEWS = TIE("GzViews", "tie_obtain_vertices", "tie_accessor_to_latter_map", 
                 "tie_latter_map_to_accessor_plain", "tie_latter_map_to_accessor_trim", "tie_obtain_leaf_vertices_acc",
                 "tie_obtain_leaf_vertices_map", "tie_obtain_leaf_vertices_bad")
 TIE_BUILD = TIE("SwFind", "tie_find_vertices") + TIE("SwValid", "tie_connect_valid_graph", "tie_connect_valid_graph_none")
+GRAPHCOR = {c: TIE("GraphCorollaries", *[n for n in ("gen_C11_mask", "gen_C11_mask_iff", "gen_C11_valid_graph", "gen_C03_holds", "gen_C03_error_iff", "gen_C03_mono", "gen_C03_remove_useless", "gen_C03_latter_map", "gen_C04_terminates_normal", "gen_C04_terminates_fast", "gen_C04_tight_normal", "gen_C04_length_branching", "gen_C04_length_complete", "gen_C04_tight_fast", "gen_C02_generated_subgraph", "gen_E2E_generated_subgraph", "gen_C02_windows", "gen_C02_whole", "gen_E2E_write", "gen_C13_latters", "gen_C13_formers", "gen_C13_lt", "gen_C13_former_iff_latter", "gen_C13_complete", "gen_C13_wfdb_valid_graph", "gen_C13_wfdb_coding_graph", "gen_C13_wfdb_latter_map", "gen_C14_latter_map_roundtrip", "gen_C14_latter_map_content", "gen_C14_vertices", "gen_C14_leaves", "gen_C14_leaves'", "gen_C19_scores",) if n.startswith("gen_" + c) or (c == "C02" and n.startswith("gen_E2E"))])
+            for c in ("C02", "C03", "C04", "C11", "C13", "C14", "C19")}
 TIE_CCG = TIE("SwCoding", "tie_connect_coding_graph")
 TIE_SCORE = TIE("GzScore", "tie_calculate_intersection_score")
 TIE_REP = TIE("SwRepair", "tie_repair_dna") + TIE("GzPath", "tie_path_matching")
@@ -62,15 +64,15 @@ PROPS = {
                      "out-degrees) x start x permutation table x message x mode x check length; a case is one encode "
                      "line; non-trivial = message value > 0 and the walk visits a branching vertex; distinct = hash "
                      "of the operation line"),
-    "C02": dict(level="proof", theorems=T("C02", "C02_windows", "C02_generated_subgraph", "C02_whole", "C02_ctor_partial", "C02_ctor_counterexample") + T("EndToEnd", "E2E_generated_subgraph") + TIE_BUILD + TIE_CCG + TIE_SW[1:2], tie=[("spiderweb", ["find_vertices", "connect_valid_graph", "connect_coding_graph", "encode"])], gens=["C02", "GENSW"],
+    "C02": dict(level="proof", theorems=T("C02", "C02_windows", "C02_generated_subgraph", "C02_whole", "C02_ctor_partial", "C02_ctor_counterexample") + T("EndToEnd", "E2E_generated_subgraph") + TIE_BUILD + TIE_CCG + TIE_SW[1:2] + GRAPHCOR["C02"], tie=[("spiderweb", ["find_vertices", "connect_valid_graph", "connect_coding_graph", "encode"])], gens=["C02", "GENSW"],
                 rule="filter grid (run x GC range x motifs, and user-defined table predicates) x k x threshold x start x "
                      "message x table x mode, plus the constructor grid and the threshold grid; non-trivial = a "
                      "non-empty strand was emitted / configuration accepted"),
-    "C03": dict(level="proof", theorems=T("C03", "C03_trimLoop", "C03_gfp", "C03_t1", "C03_holds", "C03_mono", "C03_latter_map", "C03_goodFrom", "C03_pure") + T("C03b", "C03_remove_useless") + TIE_VIEWS[2:5] + TIE_CCG, tie=[("spiderweb", ["connect_coding_graph"]), ("graphized", ["remove_useless", "latter_map_to_accessor", "obtain_latters", "obtain_formers", "obtain_vertices"])], gens=["C03", "GENGZ", "GENSW"],
+    "C03": dict(level="proof", theorems=T("C03", "C03_trimLoop", "C03_gfp", "C03_t1", "C03_holds", "C03_mono", "C03_latter_map", "C03_goodFrom", "C03_pure") + T("C03b", "C03_remove_useless") + TIE_VIEWS[2:5] + TIE_CCG + GRAPHCOR["C03"], tie=[("spiderweb", ["connect_coding_graph"]), ("graphized", ["remove_useless", "latter_map_to_accessor", "obtain_latters", "obtain_formers", "obtain_vertices"])], gens=["C03", "GENGZ", "GENSW"],
                 rule="vertex masks (density classes, structured cycles; thorough: a seeded quarter of all 65 536 order-2 "
                      "masks) x threshold 1..4 x dtype; non-trivial = mask neither empty nor full and at least one "
                      "vertex removed"),
-    "C04": dict(level="proof", theorems=T("C04", "C04_terminates_normal", "C04_terminates_fast", "C04_tight_normal", "C04_length_branching", "C04_length_complete", "C04_tight_fast") + T("C03", "C03_goodFrom") + TIE_CCG + TIE_SW[1:2], tie=[("spiderweb", ["connect_coding_graph", "encode"]), "operation"], gens=["C04", "GENSW"],
+    "C04": dict(level="proof", theorems=T("C04", "C04_terminates_normal", "C04_terminates_fast", "C04_tight_normal", "C04_length_branching", "C04_length_complete", "C04_tight_fast") + T("C03", "C03_goodFrom") + TIE_CCG + TIE_SW[1:2] + GRAPHCOR["C04"], tie=[("spiderweb", ["connect_coding_graph", "encode"]), "operation"], gens=["C04", "GENSW"],
                 rule="graphs returned by the real connect_coding_graph x retained starts x messages x modes, accessor "
                      "passed as a read-counting proxy; non-trivial = value > 0 and a branching vertex visited"),
     "C05": dict(level="proof", theorems=T("C05", "C05_encode_meets_spec", "C05_spec_unique", "C05_decode_value", "C05_fast_meets_spec", "C05_fast_decode_value") + T("C18", "C18_digit_is_rank", "C18_bijection") + TIE_SW[1:] + SWCOR["C05"], tie=[("spiderweb", ["encode", "decode"]), "operation"], gens=["C05", "GENSW"],
@@ -92,7 +94,7 @@ PROPS = {
     "C10": dict(level="proof", theorems=T("C10", "C10_total", "C10_scan_terminates", "C10_lookups") + TIE_REP + REPCOR["C10"], tie=[("spiderweb", ["repair_dna"]), ("graphized", ["path_matching"])], gens=["C10", "GENSW"],
                 rule="ACGT strings >= one window (bad first symbol, error in last window, random, heavily edited) x "
                      "graphs x options under a look-up budget; non-trivial = at least one detection"),
-    "C11": dict(level="proof", theorems=T("C11", "C11_mask", "C11_valid_graph") + TIE_BUILD, tie=[("spiderweb", ["find_vertices", "connect_valid_graph"]), ("graphized", ["obtain_latters"]), ("operation", ["number_to_dna"])], gens=["C11", "GENSW"],
+    "C11": dict(level="proof", theorems=T("C11", "C11_mask", "C11_valid_graph") + TIE_BUILD + GRAPHCOR["C11"], tie=[("spiderweb", ["find_vertices", "connect_valid_graph"]), ("graphized", ["obtain_latters"]), ("operation", ["number_to_dna"])], gens=["C11", "GENSW"],
                 rule="filters (documented-interface table filter, keyword-extended filter, LocalBioFilter, empty) x "
                      "k, and masks x dtype for the valid graph; non-trivial = mask neither empty nor full"),
     "C12": dict(level="proof", theorems=T("C12", "C12_valid_all", "C12_last", "C12_window_conj", "C12_revcomp",
@@ -105,11 +107,11 @@ PROPS = {
                                           "C13_latters_lt", "C13_formers_lt", "C13_former_iff_latter", "C13_complete",
                                           "C13_wfdb_induced", "C13_wfdb_valid_graph", "C13_wfdb_setEnt",
                                           "C13_wfdb_coding_graph", "C13_wfdb_remove_nasty_arc", "C13_wfdb_latter_map",
-                                          "C13_wfdb_matrix") + TIE_GZ, tie=["graphized", ("operation", ["number_to_dna", "dna_to_number"])], gens=["C13", "GENGZ"],
+                                          "C13_wfdb_matrix") + TIE_GZ + GRAPHCOR["C13"], tie=["graphized", ("operation", ["number_to_dna", "dna_to_number"])], gens=["C13", "GENGZ"],
                 rule="all vertices for k up to a bound, sampled up to k = 12; non-trivial = k >= 2"),
     "C14": dict(level="proof", theorems=T("C14", "C14_latter_map_roundtrip", "C14_matrix_roundtrip",
                                           "C14_latter_map_content", "C14_matrix_content", "C14_vertices", "C14_leaves",
-                                          "C14_illegal_matrix") + TIE_VIEWS, tie=[("graphized", ["obtain_vertices", "accessor_to_latter_map", "latter_map_to_accessor", "obtain_leaf_vertices", "obtain_latters"])], gens=["C14", "GENGZ"],
+                                          "C14_illegal_matrix") + TIE_VIEWS + GRAPHCOR["C14"], tie=[("graphized", ["obtain_vertices", "accessor_to_latter_map", "latter_map_to_accessor", "obtain_leaf_vertices", "obtain_latters"])], gens=["C14", "GENGZ"],
                 rule="arbitrary arc subsets (not only induced ones) x all converters, leaf queries, illegal single-arc "
                      "matrices; non-trivial = k >= 2 with live and dead columns",
                 assumptions=["adjacency_matrix_to_accessor decides legality with list(set|set) != ref, which relies on "
@@ -140,7 +142,7 @@ PROPS = {
                             "is a theorem about the model since the continuation session: Model/Shuffle.lean models MT19937 "
                             "seeding and NumPy's legacy shuffle, the table is a pure function of (k, seed) there "
                             "(C18_seeded_deterministic) and is compared entry by entry with NumPy's output on every run"]),
-    "C19": dict(level="proof", theorems=T("C19", "C19_scores", "C19_step", "C19_history") + TIE_SCORE + TIE_VIEWS[1:2], tie=[("graphized", ["calculate_intersection_score", "accessor_to_latter_map", "obtain_leaf_vertices", "obtain_vertices"])], gens=["C19", "GENGZ"],
+    "C19": dict(level="proof", theorems=T("C19", "C19_scores", "C19_step", "C19_history") + TIE_SCORE + TIE_VIEWS[1:2] + GRAPHCOR["C19"], tie=[("graphized", ["calculate_intersection_score", "accessor_to_latter_map", "obtain_leaf_vertices", "obtain_vertices"])], gens=["C19", "GENGZ"],
                 rule="generated graphs x flags x removal sequences until the first raise; non-trivial = history of "
                      ">= 2 returning calls"),
     "C20": dict(level="translation_validation", theorems=T("C20", "C20_stateless", "C20_compositional", "C20_idempotent_observation"), gens=["C20"],
